@@ -826,6 +826,76 @@ def _coords_task(task, p):
     p.sample(sub, {"op": name, "coordinates": ["spatial_ref (scalar)", "lon (y, x)", "row (y)"], "orders": 3, "backends": ["numpy", "dask"]})
 
 
+def _cross_object_task(task, p):
+    """State shared ACROSS objects (module- or class-level stores): the operation on cube A, then on a related cube B
+    (the same bytes read as another dtype, the same data under another nodata attribute / other time labels / as
+    float32, other data on the same coordinates), then on A again ... in one process.  The expectation for every
+    cube comes from a child process forked BEFORE this process has run the operation on any of them."""
+    import multiprocessing as mp
+    name = task
+    sub = "cross_object_sequences"
+    da, O = operations()
+    f = O[name]
+    variants = {
+        "A": lambda: da.copy(deep=True),
+        "the same bytes as uint16": lambda: da.copy(data=da.values.view("uint16").copy()),
+        "other data, same coordinates": lambda: da.copy(data=np.where(da.values == -9999, -9999, (da.values * 5 + 3) % 83 + 1).astype("int16")),
+        "nodata attribute 0": lambda: da.copy(deep=True).assign_attrs(nodata=0),
+        "time labels shifted by 5 days": lambda: da.copy(deep=True).assign_coords(time=da.time.values + np.timedelta64(5, "D")),
+        "float32 copy": lambda: da.astype("float32").assign_attrs(da.attrs),
+    }
+
+    def compute(v):
+        with warnings.catch_warnings():
+            warnings.simplefilter("ignore")
+            try:
+                return ("ok", materialise(f(variants[v]())))
+            except Exception as e:  # noqa: BLE001
+                return ("raise", type(e).__name__)
+
+    def child(conn):
+        conn.send({v: compute(v) for v in variants})
+        conn.close()
+
+    ctx_ = mp.get_context("fork")
+    parent, ch = ctx_.Pipe()
+    pr = ctx_.Process(target=child, args=(ch,))
+    pr.start()
+    ch.close()
+    try:
+        refs = parent.recv()
+    except EOFError:
+        refs = None
+    pr.join(60)
+    if refs is None:
+        p.set_undecided(sub, f"reference child for {name} died")
+        return
+    n = 0
+    order = ["A"]
+    for v in variants:
+        if v != "A":
+            order += [v, "A"]
+    order += [v for v in reversed(list(variants)) if v != "A"]
+    history = []
+    for v in order:
+        got = compute(v)
+        history.append(v)
+        n += 1
+        exp = refs[v]
+        if got[0] != exp[0]:
+            msg = f"{'raises ' + got[1] if got[0] == 'raise' else 'returns a result'} while a fresh process {'raises ' + exp[1] if exp[0] == 'raise' else 'returns a result'}"
+        elif got[0] == "raise":
+            msg = None if got[1] == exp[1] else f"raises {got[1]} instead of {exp[1]}"
+        else:
+            msg = same(exp[1], got[1])
+        if msg:
+            p.violation(sub, {"op": name, "cube": v, "history": history[:-1][-4:]}, {"kind": "crossobj", "op": name},
+                        f"{name} on the cube '{v}' after the same process has run it on {history[:-1][-4:]}: {msg} (the result of a fresh process is the reference)")
+            break
+    p.count(sub, evaluations=n, states=n, transitions=n, traces_validated_against_impl=n, nontrivial=n)
+    p.sample(sub, {"op": name, "cubes": list(variants), "sequence": order})
+
+
 def _perm_task(task, p):
     """Permuting the pixels of a 2x3 grid permutes the results (each pixel depends only on its own series)."""
     import pandas as pd
@@ -1086,7 +1156,7 @@ def _dispatch(task, p):
 
 def _dispatch_inner(kind, t, p):
     {"lazy_real": _lazy_real_task, "dasksched": _dasksched_task, "config": _config_task, "time_chunk": _time_chunk_task,
-     "perm": _perm_task, "vprange": _vprange_task, "joint": _joint_task, "shape": _shape_task, "repeat": _repeat_task, "coords": _coords_task}[kind](t, p)
+     "perm": _perm_task, "vprange": _vprange_task, "joint": _joint_task, "shape": _shape_task, "repeat": _repeat_task, "coords": _coords_task, "crossobj": _cross_object_task}[kind](t, p)
 
 
 def run(ctx):
@@ -1139,8 +1209,9 @@ def run(ctx):
     tasks += [("shape", nm) for nm in names if nm not in ("zonal_mean", "zonal_mean_f64", "whits_sg_p", "whitsvc_lc")]
     tasks += [("repeat", nm) for nm in names]
     tasks += [("coords", nm) for nm in names if not nm.startswith("zonal")]
+    tasks += [("crossobj", nm) for nm in names]
     # longest first
-    weight = {"config": 5, "dasksched": 4, "lazy_real": 6, "perm": 3, "time_chunk": 2, "vprange": 1, "joint": 2, "shape": 2, "repeat": 2, "coords": 1}
+    weight = {"config": 5, "dasksched": 4, "lazy_real": 6, "perm": 3, "time_chunk": 2, "vprange": 1, "joint": 2, "shape": 2, "repeat": 2, "coords": 1, "crossobj": 2}
     tasks.sort(key=lambda t: -weight[t[0]])
     ctx.pmap(_dispatch, tasks)
     lap("forked_subchecks")
@@ -1181,6 +1252,8 @@ def replay(sub, case, p):
         _repeat_task(case["op"], p)
     elif k == "coords":
         _coords_task(case["op"], p)
+    elif k == "crossobj":
+        _cross_object_task(case["op"], p)
     else:
         vprange_all(_wrap(p))
 
